@@ -1,5 +1,6 @@
 import Gomjml.Core.SingleFlightLive
 import Gomjml.Core.Cache
+import Gomjml.Core.CacheConc
 import Gomjml.Gen.PkgVars
 import Gomjml.Gen.Census
 /-! # C15 — single-flight parsing and cleanup lifecycle are safe under every schedule
@@ -59,6 +60,14 @@ theorem C15_stop_then_restart (w : Gomjml.Cache.World) (s : Gomjml.Cache.CS) (d 
      let s2 := (Gomjml.Cache.step w s1 (.render d true o)).1
      s2.cleaner = true ∧ s2.spawned = s1.spawned + 1) :=
   ⟨Gomjml.Cache.stop_then_none w s, Gomjml.Cache.use_after_stop_starts_one w s d o⟩
+
+/-- every caller receives the result of the goroutine that did the work, and that is a parse of the caller's own template —
+    inside the whole cache machinery (lookups, expiry, stores, evictions around it), for every schedule -/
+theorem C15_waiter_gets_own_parse (w : Gomjml.Cache.World) (j : Gomjml.CacheConc.Job) (hinj : ∀ d d', w.hash d = w.hash d' → d = d')
+    (ttl : Int) (σ : List Gomjml.CacheConc.Ev) (t l : Nat) (r : Except Gomjml.Cache.Err Gomjml.Cache.Ast)
+    (hw : (Gomjml.CacheConc.run w j (Gomjml.CacheConc.init ttl) σ).pc t = .waiting l)
+    (hr : (Gomjml.CacheConc.run w j (Gomjml.CacheConc.init ttl) σ).res l = some r) : r = w.parse (j.doc t) :=
+  Gomjml.CacheConc.conc_waiter w j hinj ttl σ t l r hw hr
 
 /-- non-vacuity: three goroutines, two on the same template; a schedule that reaches a waiter's return -/
 example : (runSched (init (fun t => if t = 2 then 1 else 0) (fun t => t + 100)) [0, 0, 1, 1, 0, 0, 0, 1]).pc 1 = .ret (some 100) (some 0) := by
